@@ -12,8 +12,10 @@ C11 P1 with premises on the configuration and the calls only (Q3c).
                        (`PassesFine`: neither `freelistPass` of the cycle ends `deadline`).  It is
                        run-dependent in the same way as `GcCountersOK` (decidable by running the calls).
                        A cycle may be cut short anywhere in its loop over the files — which is where the
-                       real code starts its time limit.  THIS PREMISE CANNOT BE DROPPED: Sth/Props/C11F.lean
-                       is a run (by `decide`) on which it fails, `VisitedStable` is false, and P1 is false.
+                       real code starts its time limit.  On the code as it was when these theorems were written
+                       the premise could not be dropped (a run on which it fails, `VisitedStable` is false and
+                       P1 is false: defect D33, Sth/Props/C11F.lean).  On the repaired code and model it is no
+                       longer needed: Sth/Props/C11P.lean proves the same three statements without it.
 
 THE INVARIANT (`BInv R`, R = maxRec ops; Sth/Lemmas/C11B1.lean … C11B9.lean), in every reachable state:
   * every pooled record has a body of at most R bytes (put: the record put; relocation: a byte-for-byte
